@@ -298,7 +298,7 @@ func Run(c *gen.Ctx) error {
 	nSSE, nMulti := 140, 140
 	if c.Thorough() {
 		nSSE, nMulti = 2500, 2500
-		errFieldChoices = []int{1, 8, 30, 120, 400}
+		errFieldChoices = []int{1, 8, 30, 120}
 	}
 	var plans []plan
 	plans = append(plans,
@@ -341,6 +341,9 @@ func Run(c *gen.Ctx) error {
 	wg.Wait()
 	cf := &gen.CaseFile{Dir: c.OutDir, Prop: "C12", Kind: "stream", Requires: []string{"Base.Prelude", "Model.Sse", "Model.Multipart", "Corr.Corr_C12"}, Type: "c12_case",
 		Checks: []gen.Check{{Label: "corr", Fn: "c12_corr"}, {Label: "mon", Fn: "c12_mon"}, {Label: "monmodel", Fn: "c12_monmodel"}}, Shard: 150}
+	if c.Thorough() {
+		cf.Shard = 25 // bodies are printed byte by byte: keep each file small enough for Coq's parser
+	}
 	var descr []any
 	counts := map[string]int{}
 	pings, parts := 0, 0
